@@ -126,6 +126,9 @@ func mutate(t *rapid.T, g *vgen, v reflect.Value, depth int) {
 				v.Set(reflect.MakeMap(v.Type()))
 			}
 			k := rapid.StringMatching(`[a-z]{1,3}`).Draw(t, "mkey")
+			if len(g.o.KeyPool) > 0 && rapid.IntRange(0, 3).Draw(t, "mpoolkey") == 0 {
+				k = rapid.SampledFrom(g.o.KeyPool).Draw(t, "mpool")
+			}
 			v.SetMapIndex(reflect.ValueOf(k).Convert(v.Type().Key()), g.value(v.Type().Elem(), depth+1))
 		case 4:
 			v.Set(g.value(v.Type(), depth))
